@@ -130,9 +130,35 @@ fn c09_cmr_replay() {
                     fails.push(format!("after hide(), {:?} has root {}, expected {:02x?}", s, hidden.cmr(), want));
                 }
                 // hide the expression, then use it as the child of each unary combinator and as either child of case
-                let inj = Hiding::<Arc<ConstructNode>>::injl(&hidden);
-                if inj.cmr().as_ref() != &reference(&Shape::InjL(Box::new(s.clone())))[..] {
-                    fails.push(format!("injl over hidden {:?} has root {}", s, inj.cmr()));
+                type H<'b> = Hiding<'b, Arc<ConstructNode<'b>>>;
+                let bx = || Box::new(s.clone());
+                let unary: [(&str, H, Shape); 4] = [
+                    ("injl", H::injl(&hidden), Shape::InjL(bx())),
+                    ("injr", H::injr(&hidden), Shape::InjR(bx())),
+                    ("take", H::take(&hidden), Shape::Take(bx())),
+                    ("drop", H::drop_(&hidden), Shape::Drop(bx())),
+                ];
+                for (name, got, shape) in unary.iter() {
+                    if got.cmr().as_ref() != &reference(shape)[..] {
+                        fails.push(format!("{} over hidden {:?} has root {}, expected {:02x?}", name, s, got.cmr(), reference(shape)));
+                    }
+                }
+                if let Ok(d) = H::disconnect(&hidden, &None::<Arc<ConstructNode>>) {
+                    if d.cmr().as_ref() != &reference(&Shape::Disconnect(bx()))[..] {
+                        fails.push(format!("disconnect over hidden {:?} has root {}", s, d.cmr()));
+                    }
+                }
+                if let Some(u) = build::<H>(&ctx, &Shape::Unit) {
+                    for (name, got, shape) in [
+                        ("comp", H::comp(&hidden, &u), Shape::Comp(bx(), Box::new(Shape::Unit))),
+                        ("pair", H::pair(&u, &hidden), Shape::Pair(Box::new(Shape::Unit), bx())),
+                    ] {
+                        if let Ok(g) = got {
+                            if g.cmr().as_ref() != &reference(&shape)[..] {
+                                fails.push(format!("{} with hidden {:?} has root {}", name, s, g.cmr()));
+                            }
+                        }
+                    }
                 }
                 if let Some(u) = build::<Hiding<Arc<ConstructNode>>>(&ctx, &Shape::Unit) {
                     let want_case = reference(&Shape::Case(Box::new(s.clone()), Box::new(Shape::Unit)));
